@@ -20,3 +20,8 @@ Example gen_time_exact :
   /\ g_time (g_run gen_codes 0 0 gen_ops) 0 2 = 12
   /\ nonreentrant_hist rec_codes 0 rec_ops = false.
 Proof. vm_compute. repeat split. Qed.
+
+Theorem reported_time_is_abstract codes tick ops c l :
+  no_collision codes ops = true ->
+  reported_time (run codes tick 0 ops) c l = atm (a_run codes tick 0 ops) c l.
+Proof. intros H. exact (proj2 (reported_is_abstract codes tick ops c l H)). Qed.
